@@ -162,3 +162,55 @@ def gen_boundary():
 def gen(ctx, scale):
     r = ctx.rng
     return gen_boundary() + gen_arr(r, 150 * scale) + gen_mm(r, 500 * scale) + gen_dt(r, 500 * scale)
+
+
+def gen_guards():
+    """T-gen validation of the cxx2coq-translated guard prefixes: the REAL function on boundary grids of 64-bit arguments
+    ("-k" = 2^64 - k for unsigned arguments)"""
+    cases = []
+    M63 = 2 ** 63
+    def B(c):
+        return sorted(set(x for x in (0, 1, 2, c - 1, c, c + 1, c + 2, M63 - 1, M63, M63 + 1, -2, -1, -c, -c - 1, -c + 1) if abs(x) < 2 ** 64 and (x >= 0 or x > -2 ** 64)), key=str)
+    for k in ('ar', 'ai', 'sa'):
+        for c in (0, 1, 4, 5, 33):
+            for i in B(c):
+                for n in B(c) + [c - i if 0 <= c - i else 0, (c - i + 1) if c - i + 1 >= 0 else 0]:
+                    cases.append('g rm %s %d %d %d' % (k, c, i, n))
+                cases.append('g idx %s %d %d' % (k, c, i))
+                cases.append('g rmback %s %d %d' % (k, c, i))
+            if k != 'sa':
+                for i in (0, 1, c - 1 if c else 0, c, c + 1, -1):
+                    for n in [0, 1, 2] + ([-1, -2, -c, -c + 1] if c >= 1 else []):
+                        if n >= 0 or -n <= c:           # overflow-tripping counts only (a huge count that fits would run into bad_alloc)
+                            cases.append('g insn %s %d %d %d' % (k, c, i, n))
+            for idx in sorted(set((0, 1, c // 2, c))):
+                if idx > c: continue
+                for d in sorted(set((0, 1, -1, 2, c - idx, c - idx + 1, -idx, -idx - 1, M63 - 1, -M63, -M63 + 1, M63 - 2))):
+                    cases.append('g adv %s %d %d %d' % (k, c, idx, d))
+                cases.append('g arrow %s %d %d' % (k, c, idx))
+        for d in (0, 1, -1, M63 - 1, -M63):
+            cases.append('g defadv %s 0 %d' % (k, d))
+        cases.append('g defarrow %s 0' % k)
+    for snap in (0, 1, 5, 2 ** 64 - 1):
+        for cur in (0, 1, 5, 6, 2 ** 64 - 1):
+            for p in (0, 1):
+                cases.append('g kself %d %d %d' % (p, snap, cur))
+            for p in (0, 1, 2):
+                for q in (1, 2):
+                    for al in (0, 1):
+                        for c2 in (cur, snap):
+                            cases.append('g kcont %d %d %d %d %d %d' % (p, snap, cur, c2, q, al))
+    for c in (0, 1, 2, 3, 7, 8, 9):
+        for i in (0, 1, c - 1 if c else 0, c, c + 1, -1, M63):
+            cases.append('g mmrm %d %d' % (c, i))
+    for c in (0, 1, 3, 6):
+        for i in B(c):
+            cases += ['g selidx %d %d' % (c, i), 'g row %d %d' % (c, i), 'g tins %d %d' % (c, i), 'g tupd %d %d' % (c, i)]
+            for n in B(c) + [max(c - i, 0), max(c - i + 1, 0)]:
+                cases.append('g selrm %d %d %d' % (c, i, n))
+    for c in (0, 1, 2, 5, 31, 32):
+        for p in sorted(set((0, 1, c - 1 if c else 0, c))):
+            if p <= c:
+                cases += ['g tinc %d %d' % (c, p), 'g tarrow %d %d' % (c, p)]
+    cases.append('g tdefinc')
+    return sorted(set(cases))
